@@ -28,7 +28,12 @@ func c09Gen(seed uint64, run int, tier string) *Case {
 	c.Cfg["dotu"], c.Cfg["sdotu"] = int64(r.Intn(2)), int64(r.Intn(2))
 	c.Cfg["cap"] = int64(r.Pick(0, 0, 16, 200))
 	c.Cfg["holdpct"] = int64(r.Pick(0, 20, 40, 70))
-	if run%50 == 0 {
+	every := 50
+	if tier == "thorough" {
+		every = 400
+	}
+	c.Cfg["maxsteps"] = 3000000
+	if run%every == 0 {
 		// many consecutive calls over one connection: tags and request slots must be recycled
 		c.Stratum = "long-run"
 		n := 10000
@@ -220,7 +225,9 @@ func c09Exec(x *Ctx) {
 	}
 	// tags are recycled: the number of distinct tag values stays close to the peak concurrency
 	// (the client keeps up to 16 request slots with their tags cached)
-	if lim := peer.MaxOutst + 16 + len(st.gs); len(distinctTags) > lim+8 {
+	// (judged in the long-run stratum only: with more callers than cached slots the pool hands tags out
+	// first-in first-out, so under high concurrency many different values are legitimately seen)
+	if lim := peer.MaxOutst + 16 + len(st.gs); longrun > 0 && len(distinctTags) > lim+8 {
 		x.Violate("c3-tags-not-recycled", "%d distinct tag values were used although at most %d calls were ever outstanding (%d requests in all)", len(distinctTags), peer.MaxOutst, len(peer.Reqs))
 	}
 	x.ProbeN("calls", len(peer.Reqs))
